@@ -695,6 +695,11 @@ func visitAST(node *sitter.Node, sourceCode []byte, graph *CodeGraph, currentCon
 		methodArgumentValue := []string{}
 		annotationMarkers := []string{}
 
+		// get return type of method
+		if typeNode := node.ChildByFieldName("type"); typeNode != nil {
+			returnType = typeNode.Content(sourceCode)
+		}
+
 		for i := 0; i < int(node.ChildCount()); i++ {
 			childNode := node.Child(i)
 			childType := childNode.Type()
@@ -715,9 +720,6 @@ func visitAST(node *sitter.Node, sourceCode []byte, graph *CodeGraph, currentCon
 						annotationMarkers = append(annotationMarkers, childNode.Child(j).Content(sourceCode))
 					}
 				}
-			case "void_type", "type_identifier":
-				// get return type of method
-				returnType = childNode.Content(sourceCode)
 			case "formal_parameters":
 				// get method arguments
 				for j := 0; j < int(childNode.NamedChildCount()); j++ {
